@@ -37,9 +37,12 @@ KINDS = {
     # formatted except for its terminators, with an explicit newline_style: --check reports it through the session's writer
     # ("Incorrect newline style in ..") while real diffs are printed directly
     "C": {"files": {"c.rs": "fn c() {\r\n    let x = 1;\r\n}\r\n", "rustfmt.toml": "newline_style = \"Unix\"\n"}},
+    # two roots whose module trees overlap: both reach ../shared/common.rs; every run that handles the module reports it
+    "G": {"files": {"g.rs": "#[path = \"../shared/common.rs\"]\nmod common;\nfn  g( ){}\n", "../shared/common.rs": "pub fn  c( ){}\n"}},
+    "H": {"files": {"h.rs": "#[path = \"../shared/common.rs\"]\nmod common;\nfn  h( ){}\n", "../shared/common.rs": "pub fn  c( ){}\n"}},
     "N": {"files": {}},       # a path that does not exist
 }
-ROOT = {"C": "c.rs", "F": "f.rs", "U": "u.rs", "P": "p.rs", "L": "l.rs", "M": "m.rs", "T": "t.rs", "B": "b.rs", "N": "nothere.rs", "X": "x.rs", "I": "i.rs", "J": "j.rs"}
+ROOT = {"G": "g.rs", "H": "h.rs", "C": "c.rs", "F": "f.rs", "U": "u.rs", "P": "p.rs", "L": "l.rs", "M": "m.rs", "T": "t.rs", "B": "b.rs", "N": "nothere.rs", "X": "x.rs", "I": "i.rs", "J": "j.rs"}
 ANSI = re.compile(r"\x1b\[[0-9;]*m|\x1b\(B")
 
 
@@ -48,7 +51,8 @@ def make_tree(d, kinds):
         sd = os.path.join(d, "d%d" % i)
         os.makedirs(sd)
         for rel, t in KINDS[k]["files"].items():
-            with open(os.path.join(sd, rel), "w", newline="") as f:
+            os.makedirs(os.path.dirname(os.path.normpath(os.path.join(sd, rel))), exist_ok=True)
+            with open(os.path.normpath(os.path.join(sd, rel)), "w", newline="") as f:
                 f.write(t)
 
 
@@ -116,7 +120,7 @@ def run(tier, seed, replay):
             e.update({"LANG": "tr_TR.UTF-8", "LC_ALL": "C", "TZ": "Pacific/Kiritimati", "COLUMNS": "20", "NO_COLOR": "1", "CARGO": "/nonexistent"})
         return e
 
-    sets = [["C", "U", "F"], ["I", "U", "J"], ["J", "I"], ["U"], ["F", "U"], ["U", "P", "L"], ["F", "U", "P", "L"], ["T", "L", "M"], ["L", "M", "N"], ["U", "X", "F"], ["U", "B", "F"]]
+    sets = [["C", "U", "F"], ["G", "H"], ["I", "U", "J"], ["J", "I"], ["U"], ["F", "U"], ["U", "P", "L"], ["F", "U", "P", "L"], ["T", "L", "M"], ["L", "M", "N"], ["U", "X", "F"], ["U", "B", "F"]]
     if tier != "quick":
         pool = ["F", "U", "P", "L", "M", "T", "N", "X"]
         for _ in range(10):
@@ -235,7 +239,7 @@ def run(tier, seed, replay):
             viol(key, dict(rp, multi=dict(diag(r)), singles=dict(want_diag)), "diagnostics of the %s run are not the multiset union of the single-file runs'" % j["variant"])
         # the standard-output STREAM of a multi-file run is the single-file outputs one after the other, in command-line order
         # (every writer of the run shares the one stream: nothing may be held back or overtaken)
-        if j["variant"] == "multi" and j["mode"] in ("check", "stdout") and not has_b:
+        if j["variant"] in ("multi", "dup") and j["mode"] in ("check", "stdout") and not has_b:
             def norm_stream(rr):
                 return ANSI.sub("", rr["out"]).replace(rr["dir"], "<DIR>")
             want_stream = "".join(norm_stream(singles[(j["set"], j["mode"], i)][1]) for i in j["order"])
@@ -308,6 +312,28 @@ def run(tier, seed, replay):
                 viol("tree_report_differs_from_members", {"files": tfiles, "mode": mode, "tree": [rc_tree, dict(d_tree)], "members_alone": [[p_[0], dict(p_[1])] for p_ in parts]},
                      "the diagnostics of the tree run (%r, exit %d) are not those of its member files formatted on their own (%r)" % (dict(d_tree), rc_tree, dict(want)))
             nontrivial.add("tree_members_%d_%s" % (ti, mode))
+    # ---- a file in a sub-directory that has its own configuration file, named after (and before) a file of the parent directory
+    nd = os.path.join(base, "nested_cfg")
+    shutil.rmtree(nd, ignore_errors=True)
+    os.makedirs(os.path.join(nd, "src", "vendored", "deeper"))
+    nfiles = {"rustfmt.toml": "tab_spaces = 2\n", "src/main.rs": "fn  main( ){\nif true {let x=1;}}\n", "src/vendored/rustfmt.toml": "tab_spaces = 8\n",
+              "src/vendored/lib.rs": "fn  lib( ){\nif true {let y=2;}}\n", "src/vendored/deeper/d.rs": "fn  d( ){\nif true {let z=3;}}\n", "src/sibling.rs": "fn  s( ){\nif true {let w=4;}}\n"}
+    for rel, t in nfiles.items():
+        open(os.path.join(nd, rel), "w").write(t)
+    roots = ["src/main.rs", "src/vendored/lib.rs", "src/vendored/deeper/d.rs", "src/sibling.rs"]
+    single = {}
+    for r_ in roots:
+        rc, o, e = run_rf(exe, ["--emit", "stdout", r_], nd, env_for("a"))
+        single[r_] = o.replace(nd, "<DIR>")
+    for order in itertools.permutations(roots):
+        if tier == "quick" and hash(order) % 3 and order != tuple(roots):
+            continue
+        rc, o, e = run_rf(exe, ["--emit", "stdout"] + list(order), nd, env_for("a"))
+        want = "".join(single[r_] for r_ in order)
+        nontrivial.add("nested_cfg_%s" % "|".join(order))
+        if o.replace(nd, "<DIR>") != want:
+            viol("bytes_depend_on_other_inputs", {"files": nfiles, "order": list(order), "multi": o[-1500:], "singles_in_order": want[-1500:]},
+                 "files of nested directories with their own rustfmt.toml: the output of one invocation over %s is not the single-file outputs in order" % (list(order),))
     # ---- path vs standard input
     stdin_n = 0
     for k in ("F", "U", "L", "M", "P", "X"):
